@@ -2,12 +2,12 @@
 (* GEN for C19: hist_bins calls on a 3-channel sample (resolutions 5, 256, 1000) *)
 (* in three states: raw, RFI-converted (lower limits positive), MEF-like (lower  *)
 (* limit 0 after conversion).                                                    *)
-EXTENDS HistBins, TLC
+EXTENDS HistBins, LogicleParams, TLC
 VARIABLES stage, scn, out
 vars == <<stage, scn, out>>
 C == 3
 ResOf == <<5, 256, 1000>>
-States == {"raw", "rfi", "mef"}
+States == {"raw", "rfi", "mef", "float-neg"}       \* float-neg: float data with negative events
 LoNonPos(s) == IF s = "rfi" THEN <<FALSE, FALSE, FALSE>> ELSE <<TRUE, TRUE, TRUE>>
 
 ChF(t, cols, named) == [t |-> t, cols |-> cols, named |-> named]
@@ -23,7 +23,9 @@ ScArgs(f) == LET n == Len(Requested(f, C)) IN
   \cup (IF f.t = "scalar" THEN {} ELSE {Arg("list", [j \in 1..n |-> IF j % 2 = 1 THEN "log" ELSE "linear"]),
                                         Arg("list", [j \in 1..n |-> IF j = 1 THEN "logicle" ELSE "linear"]),
                                         Arg("list", [j \in 1..n |-> IF j = n THEN "foo" ELSE "logicle"])})
-Overrides == {"none", "T", "M", "W", "TMW"}
+Overrides == {"none", "T", "M", "W", "TMW", "Tneg", "Mzero", "Wneg", "Wzero"}
+Given(o) == CASE o = "none" -> {} [] o \in {"T", "Tneg"} -> {"T"} [] o \in {"M", "Mzero"} -> {"M"} [] o \in {"W", "Wneg", "Wzero"} -> {"W"} [] OTHER -> {"T", "M", "W"}
+Sign(o) == [T |-> IF o = "Tneg" THEN "neg" ELSE "pos", M |-> IF o = "Mzero" THEN "zero" ELSE "pos", W |-> IF o = "Wneg" THEN "neg" ELSE IF o = "Wzero" THEN "zero" ELSE "pos"]
 
 Init == stage = 0 /\ scn = <<>> /\ out = <<>>
 Pick(n, S) == stage = n /\ \E x \in S : scn' = Append(scn, x) /\ stage' = n + 1 /\ UNCHANGED out
@@ -34,7 +36,11 @@ Next ==
   \/ stage = 4 /\ \E o \in Overrides : (o # "none" => \E j \in 1..Len(scn[4].vals) : scn[4].vals[j] = "logicle")
                                        /\ scn' = Append(scn, o) /\ stage' = 5 /\ UNCHANGED out
   \/ /\ stage = 5
-     /\ out' = HistBinsCall(scn[2], scn[3], scn[4], C, ResOf, LoNonPos(scn[1]))
+     /\ LET base == HistBinsCall(scn[2], scn[3], scn[4], C, ResOf, LoNonPos(scn[1]))
+            usesLogicle == base.k = "ok" /\ \E j \in 1..Len(base.per) : base.per[j].scale = "logicle"
+        IN out' = IF usesLogicle /\ Refused(Given(scn[5]), Sign(scn[5])) THEN [k |-> "err", scalar |-> FALSE, per |-> <<>>, src |-> <<>>]
+                  ELSE [k |-> base.k, scalar |-> base.scalar, per |-> base.per,
+                        src |-> Sources(Given(scn[5]), TRUE, TRUE, scn[1] = "float-neg")]
      /\ stage' = 100 /\ UNCHANGED scn
 Spec == Init /\ [][Next]_vars
 Done == stage = 100
@@ -42,5 +48,6 @@ Done == stage = 100
 EdgesIncreasing == (Done /\ out.k = "ok") => \A j \in 1..Len(out.per) : out.per[j].n <= 16 => Increasing(out.per[j].res, out.per[j].n)
 EdgesCover == (Done /\ out.k = "ok") => \A j \in 1..Len(out.per) : Covers(out.per[j].res, out.per[j].n)
 CentredSmall == Centred(5) /\ Centred(8) /\ Centred(16)
+SourcesTotal == (Done /\ out.k = "ok") => out.src.T \in {"given", "largest-range-upper-limit"} /\ out.src.W \in {"given", "zero", "from-most-negative-event"}
 UnknownScaleRefused == Done => ((\E j \in 1..Len(scn[4].vals) : scn[4].vals[j] = "foo" /\ (scn[4].t = "scalar" \/ j <= Len(Requested(scn[2], C)))) => out.k = "err")
 =============================================================================
